@@ -168,6 +168,32 @@ def run(ck, prog, ctx):
                 if o.kind == "const" and o.int_value() is not None:
                     vals.add(o.int_value())
         ck.ob("TABLE", "PHENOTYPE_ID", vals == {118}, "PHENOTYPE_ID is built from the constant(s) %s (expected 118)" % sorted(vals), where=pid.where())
+    # ---- the roots are found BY ID wherever the defaults are computed: every `children` read in the private code behind the two setters hangs
+    # on a term that was looked up with a constant key (HP:0000001 / PHENOTYPE_ID).  A root found by its shape (`self.root()`: first term
+    # without parents that has children; `iter().find(..)`) is another term as soon as the ontology has a second parentless component, and
+    # its absence is no longer the documented error.
+    ck.rule("ROOTKEY", "in the setters of the default groups and the private code they reach, each term whose children are read derives from Ontology::hpo / Arena::get with a constant key")
+    from engines import private_scope as _psr, receiver_calls as _rcr
+    for nm_ in ("set_default_modifier", "set_default_categories"):
+        sb_ = prog.body(ONT + nm_)
+        if sb_ is None:
+            continue
+        for hb_ in _psr(prog, sb_):
+            for cbi_, ct_ in hb_.calls():
+                if not re.search(r"HpoTerm::<'.*>::children_ids$|HpoTermInternal::children$|HpoTerm::<'.*>::children$", ct_.callee.res or "") or not ct_.args:
+                    continue
+                chain_ = _rcr(hb_, pvn, ct_.args[0])
+                keys_ = [c_ for c_ in chain_ if (c_.callee.res == ONT + "hpo" or (c_.callee.res or "").startswith("ontology::termarena::Arena::get")) and len(c_.args) > 1]
+                by_shape = [c_ for c_ in chain_ if c_.callee.method in ("find", "find_map", "next", "min_by_key", "max_by_key", "position", "last", "nth")
+                            or ((c_.callee.res or "").startswith(ONT) and c_.callee.res not in (ONT + "hpo",) and prog.bodies.get(c_.callee.res) is not None and re.search(r"Option<.*HpoTerm", prog.bodies[c_.callee.res].locals[0]["s"]))]
+                key_ = "%s/%s/%d" % (nm_, hb_.short, cbi_)
+                if keys_ and all(k_.args[1].kind == "const" or any(a_[0] in ("const", "constdef") for a_ in pvn.of_operand(hb_, k_.args[1])) for k_ in keys_):
+                    ck.ob("ROOTKEY", key_, True, "%s reads the children of a term looked up with a constant id" % hb_.short, where=hb_.where(ct_.line))
+                elif by_shape and not keys_:
+                    ck.ob("ROOTKEY", key_, False, "%s reads the children of a term that was not looked up by id but picked with `%s`: with a second parentless branch (or without HP:0000001) the defaults are computed from another term instead of failing" % (hb_.short, by_shape[0].callee.method), where=hb_.where(ct_.line))
+                else:
+                    ck.undecided("ROOTKEY", key_, "%s reads the children of a term whose origin is not recognised" % hb_.short, where=hb_.where(ct_.line))
+
     # build_with_defaults: both setters, both results branched on
     bd = prog.one(r"^ontology::builder::Builder::<ontology::builder::FullyAnnotated>::build_with_defaults$")
     if ck.anchor("DOM", "Builder<FullyAnnotated>::build_with_defaults", bd):
